@@ -313,7 +313,7 @@ def build(spec: dict):
     dim = int(spec.get("dim", 2))
     bounds = np.array(BOXES[spec.get("box", "sym")](dim), dtype=np.float64)
     maximize = bool(spec.get("maximize", False))
-    rec = Recorder(spec.get("fn", "sphere"), bounds, maximize, max_consults=int(spec.get("max_consults", 1200)))
+    rec = Recorder(spec.get("fn", "sphere"), bounds, maximize, max_consults=int(spec.get("max_consults", 800)))
     rec.reports = bool(spec.get("reports", False))
     rec.dump_at = spec.get("dump_at")
     script = spec.get("script")
